@@ -829,6 +829,7 @@ fn run_faults(data: &[u8], ctx: &mut Ctx) -> CaseResult {
     let seed = gen_fault_seed(&mut u);
     let mut pack = gen_pack(&mut u);
     let via_axfr = chance(&mut u, 60);
+    let want_specials = chance(&mut u, 128);
     let c = gen_case(&mut u, ctx, if mode == Mode::IxfrSteps { 3 } else { 2 }, false);
     let new = c.chain.last().unwrap().clone();
     let old = c.chain[0].clone();
@@ -846,10 +847,25 @@ fn run_faults(data: &[u8], ctx: &mut Ctx) -> CaseResult {
     }
     let built: Vec<Vec<u8>> = msgs.iter().map(|m| build(m, pack.comp).bytes).collect();
 
-    let zone = match mode {
-        Mode::AxfrEmpty => empty_zone(&c.apex),
-        _ => receiver_zone(&c, &old, via_axfr)?,
+    // The receiver's zone; `make_zone` can build an identical twin later.
+    // AXFR-style transfers may start from a zone that keeps delegations and
+    // lone CNAMEs in zone-cut / CNAME nodes (as a zone file loader does);
+    // IXFR over such a zone is the known finding C10-F1 and stays out.
+    let use_specials = want_specials && matches!(mode, Mode::AxfrOverOld | Mode::IxfrFallback);
+    let make_zone = || -> Result<(domain::zonetree::Zone, bool), Violation> {
+        match mode {
+            Mode::AxfrEmpty => Ok((empty_zone(&c.apex), false)),
+            _ if use_specials => {
+                let (z, cuts, cnames) = zone_with_specials2(&c.apex, &old).map_err(|e| Violation::new("harness:zone-build", e))?;
+                Ok((z, !cuts.is_empty() || !cnames.is_empty()))
+            }
+            _ => Ok((receiver_zone(&c, &old, via_axfr)?, false)),
+        }
     };
+    let (zone, special_nodes) = make_zone()?;
+    if special_nodes {
+        ctx.class("receiver-old-version-with-cut-or-cname-nodes");
+    }
     let old_content = snapshot(&zone);
     let new_content = new.content(&c.apex);
     let verdict = reference(&msgs, pack.comp, &c.apex, &old_content);
@@ -964,19 +980,21 @@ fn run_faults(data: &[u8], ctx: &mut Ctx) -> CaseResult {
         let mut soa = new.soa.clone();
         soa.serial = soa.serial.wrapping_add(77);
         let soa_rr = soa.rr(&c.apex);
-        let parsed = to_parsed(&[marker.clone(), soa_rr.clone()]);
-        let z2 = zone.clone();
-        let r: Result<(), String> = block_on_paused(async move {
-            use domain::zonetree::types::ZoneUpdate;
-            let mut it = parsed.into_iter();
-            let m = it.next().unwrap()?;
-            let s = it.next().unwrap()?;
-            let mut up: domain::zonetree::update::ZoneUpdater<domain::base::ParsedName<bytes::Bytes>> = domain::zonetree::update::ZoneUpdater::new(z2).await.map_err(|e| format!("new: {e}"))?;
-            up.apply(ZoneUpdate::AddRecord(m)).await.map_err(|e| format!("apply: {e}"))?;
-            up.apply(ZoneUpdate::Finished(s)).await.map_err(|e| format!("apply: {e}"))?;
-            Ok(())
-        });
-        if let Err(e) = r {
+        let touch = |z: &domain::zonetree::Zone| -> Result<(), String> {
+            let parsed = to_parsed(&[marker.clone(), soa_rr.clone()]);
+            let z2 = z.clone();
+            block_on_paused(async move {
+                use domain::zonetree::types::ZoneUpdate;
+                let mut it = parsed.into_iter();
+                let m = it.next().unwrap()?;
+                let s = it.next().unwrap()?;
+                let mut up: domain::zonetree::update::ZoneUpdater<domain::base::ParsedName<bytes::Bytes>> = domain::zonetree::update::ZoneUpdater::new(z2).await.map_err(|e| format!("new: {e}"))?;
+                up.apply(ZoneUpdate::AddRecord(m)).await.map_err(|e| format!("apply: {e}"))?;
+                up.apply(ZoneUpdate::Finished(s)).await.map_err(|e| format!("apply: {e}"))?;
+                Ok(())
+            })
+        };
+        if let Err(e) = touch(&zone) {
             vfail!(format!("{what}:next-update-fails"), "a small update after the faulted stream fails: {e} | {}", ctxs());
         }
         let mut want = base;
@@ -984,6 +1002,40 @@ fn run_faults(data: &[u8], ctx: &mut Ctx) -> CaseResult {
         want.insert(key_of(&marker.owner, rr::TXT), RrsetC { ttl: marker.ttl, rdatas: vec![marker.rdata.clone()] });
         let got = snapshot(&zone);
         vensure!(got == want, format!("{what}:aborted-changes-leak-into-next-commit"), "after a one-record update following the faulted stream the zone (left) is not the last committed version plus that record (right): {} | {}", show_content_diff(&got, &want), ctxs());
+
+        // The same through queries: when the faulted stream committed
+        // nothing, a twin zone built the same way that never saw the stream
+        // and got the same one-record update must answer every (owner, type)
+        // of the content, and an absent type at every owner, identically.
+        // (walk() does not look at the NXDOMAIN / CNAME / cut markers of a
+        // node, queries do.)
+        if log.changes.is_empty() && log.after_drop == old_content {
+            let (twin, _) = make_zone()?;
+            if let Err(e) = touch(&twin) {
+                vfail!("harness:twin-update-fails", "{e}");
+            }
+            let twin_content = snapshot(&twin);
+            vensure!(twin_content == want, "harness:twin-differs", "{}", show_content_diff(&twin_content, &want));
+            ctx.class("answers-compared-with-untouched-twin");
+            let aborted_part_deleted_a_name = log.kinds.contains(&K_DELETE) || log.kinds.contains(&K_DELETE_ALL);
+            if aborted_part_deleted_a_name {
+                ctx.class("twin-compare-after-aborted-deletes");
+            }
+            let mut owners: Vec<&Vec<u8>> = vec![];
+            for k in want.keys() {
+                let a = answer_summary(&zone, &k.0, k.1);
+                let b = answer_summary(&twin, &k.0, k.1);
+                vensure!(a == b, format!("{what}:aborted-changes-alter-later-answers"), "query {} {} after (faulted stream, then a one-record update): {a} | a twin zone that never saw the faulted stream answers: {b} | {}", show_wire_name(&k.0), rr::mnemonic(k.1), ctxs());
+                if !owners.contains(&&k.0) {
+                    owners.push(&k.0);
+                }
+            }
+            for o in owners {
+                let a = answer_summary(&zone, o, 65399);
+                let b = answer_summary(&twin, o, 65399);
+                vensure!(a == b, format!("{what}:aborted-changes-alter-later-answers"), "query {} TYPE65399 after (faulted stream, then a one-record update): {a} | twin: {b} | {}", show_wire_name(o), ctxs());
+            }
+        }
     }
 
     // recovery: whatever happened, a following good AXFR must give exactly `new`
@@ -1177,7 +1229,7 @@ fn health(c: &BTreeMap<String, u64>, _thorough: bool) -> Result<(), String> {
         "axfr-into-empty", "axfr-over-old", "ixfr-steps", "ixfr-condensed", "ixfr-axfr-fallback", "multi-message", "ixfr-with-deletes-and-adds",
         "cuts:one-per-message", "cuts:random-cuts", "compress:All", "tsig-in-additional", "serial-wraps-2^32", "serial-crosses-2^31",
         "axfr-tcp", "ixfr-tcp-model-diffs", "ixfr-tcp-library-diffs", "ixfr-udp", "library-sender-multi-message", "library-records-repacked",
-        "verdict:must-reject", "verdict:complete", "verdict:incomplete", "fault-after-first-message",
+        "verdict:must-reject", "verdict:complete", "verdict:incomplete", "fault-after-first-message", "answers-compared-with-untouched-twin", "twin-compare-after-aborted-deletes",
         "fault:drop-msg", "fault:dup-msg", "fault:swap-msgs", "fault:truncate-bytes", "fault:flip-qr", "fault:opcode", "fault:rcode", "fault:tc", "fault:qtype",
         "fault:first-not-soa", "fault:only-first-record", "verdict:single-soa", "fault:missing-final-soa", "fault:different-final-soa", "fault:extra-record-after-end", "fault:ancount-zero", "fault:nscount", "fault:qdcount-2",
         "writable-zone-nodes", "updater-delete-add", "updater-delete-all-then-add", "rrset-ttl-change",
